@@ -313,9 +313,9 @@ Definition reference_ok (id matcher : str) (v : json) : bool :=
   | _ => false
   end.
 
-Definition references_ok (k id matcher : str) (a : obj) : bool :=
+Definition references_ok (required : bool) (k id matcher : str) (a : obj) : bool :=
   match olookup k a with
-  | None | Some JNull => true
+  | None | Some JNull => negb required
   | Some (JArr l) => forallb (reference_ok id matcher) l
   | Some _ => false
   end.
@@ -329,9 +329,10 @@ Definition action_texts_ok (a : obj) : bool :=
   forallb (fun row : string * list str =>
              negb (is_type (fst row) a) || forallb (fun k => required_field nonempty k a) (snd row)) required_texts
   && (negb (is_any_type ["send_msg"; "send_broadcast"]%string a) || attachments_ok a)
-  && (negb (is_any_type ["add_contact_groups"; "remove_contact_groups"; "send_broadcast"; "start_session"]%string a)
-      || references_ok k_groups k_uuid k_name_match a)
-  && (negb (is_type "add_input_labels" a) || references_ok k_labels k_uuid k_name_match a)
+  && (negb (is_type "add_contact_groups" a) || references_ok true k_groups k_uuid k_name_match a)
+  && (negb (is_any_type ["remove_contact_groups"; "send_broadcast"; "start_session"]%string a)
+      || references_ok false k_groups k_uuid k_name_match a)
+  && (negb (is_type "add_input_labels" a) || references_ok true k_labels k_uuid k_name_match a)
   && (negb (is_type "open_ticket" a)
       || match olookup k_assignee a with None => true | Some v => reference_ok k_email k_email_match v end).
 
